@@ -30,6 +30,7 @@ func (x *Exec) call(st *State, in ssa.Instruction, cc *ssa.CallCommon, res ssa.V
 	if b, ok := cc.Value.(*ssa.Builtin); ok {
 		if x.con != nil && len(x.con.Asserts) > 0 {
 			site := fmt.Sprintf("builtin %s#%d", b.Name(), x.siteOrdinal(in, "builtin "+b.Name()))
+			x.markSite(site)
 			for _, cl := range x.con.Asserts[site] {
 				env := x.newEnv(st, x.oldOf(st))
 				for i, a := range cc.Args {
@@ -58,6 +59,7 @@ func (x *Exec) call(st *State, in ssa.Instruction, cc *ssa.CallCommon, res ssa.V
 	siteName := tgt.display
 	ord := x.siteOrdinal(in, "call "+siteName)
 	site := fmt.Sprintf("call %s#%d", siteName, ord)
+	x.markSite(site)
 	// site assertions from the caller's contract
 	if x.con != nil {
 		for _, cl := range x.con.Asserts[site] {
@@ -817,6 +819,14 @@ func (x *Exec) rtypeAfterCall(st *State, c *Contract, tgt *target, oldNext, newN
 	st.comp["RType"] = nr
 }
 
+func (x *Exec) markSite(site string) {
+	r := x
+	if r.seenSites == nil {
+		r.seenSites = map[string]bool{}
+	}
+	r.seenSites[site] = true
+}
+
 // frozenCheck: writing into a backing array that some callee retained (contract clause `freezes`) is an error.
 func (x *Exec) frozenCheck(st *State, in ssa.Instruction, cond, arr string) {
 	if !x.g.anyFreezes() {
@@ -930,6 +940,7 @@ func (x *Exec) spawnCheck(st *State, g *ssa.Go) {
 	tgt := x.g.resolve(x, cc)
 	ord := x.siteOrdinal(g, "go "+tgt.display)
 	site := fmt.Sprintf("go %s#%d", tgt.display, ord)
+	x.markSite(site)
 	var args []val
 	var recv *val
 	if cc.IsInvoke() {
